@@ -102,25 +102,25 @@ def GenOK (inp : Bytes) (t : Tok) : Prop :=
 
 /-- the tokens before the final EOF: no EOF among them, `Pos` strictly increasing, each generated
     by `lexToken` at a token boundary -/
-def Body (inp : Bytes) (body : List Tok) : Prop :=
+def TokBody (inp : Bytes) (body : List Tok) : Prop :=
   (∀ t ∈ body, t.id ≠ tEOF) ∧ body.Pairwise (fun a b => a.pos < b.pos) ∧ (∀ t ∈ body, GenOK inp t)
 
 /-- the shape of a complete token list: the body, then either nothing (the body ends with an error
     token) or the EOF token, which carries the line of the end of the input unless the body ends
     with an error token (the lexer had stopped; that EOF is incidental) -/
 def Final (inp : Bytes) (ts : List Tok) : Prop :=
-  ∃ body fin, ts = body ++ fin ∧ Body inp body ∧
+  ∃ body fin, ts = body ++ fin ∧ TokBody inp body ∧
     ((fin = [] ∧ ∃ e, body.getLast? = some e ∧ e.id = tERROR) ∨
      (∃ eof, fin = [eof] ∧ eof.id = tEOF ∧
        (eof.line = lineOf inp inp.size ∨ ∃ e, body.getLast? = some e ∧ e.id = tERROR)))
 
 /-- between tokens: the list so far is a body, and every token starts before the read position -/
 structure ListInv (l : L) : Prop where
-  body : Body l.inp l.toks.toList
+  body : TokBody l.inp l.toks.toList
   lt : ∀ t ∈ l.toks.toList, t.pos < l.pos
 
-theorem Body.push {inp : Bytes} {body : List Tok} {t : Tok} (h : Body inp body)
-    (hid : t.id ≠ tEOF) (hlt : ∀ a ∈ body, a.pos < t.pos) (hg : GenOK inp t) : Body inp (body ++ [t]) := by
+theorem TokBody.push {inp : Bytes} {body : List Tok} {t : Tok} (h : TokBody inp body)
+    (hid : t.id ≠ tEOF) (hlt : ∀ a ∈ body, a.pos < t.pos) (hg : GenOK inp t) : TokBody inp (body ++ [t]) := by
   obtain ⟨b1, b2, b3⟩ := h
   refine ⟨?_, ?_, ?_⟩
   · intro a ha
@@ -146,7 +146,7 @@ theorem lex_loop_final (fuel : Nat) : ∀ (l : L), Inv l → Ready l → ListInv
     obtain ⟨sf, st⟩ := sws_total (lexToken l).1 hle1
     have e := sws_ext (lexToken l).1
     -- the list after this phase is a body again
-    have hbody : Body l.inp (l.toks.toList ++ [t]) :=
+    have hbody : TokBody l.inp (l.toks.toList ++ [t]) :=
       hl.body.push hid (fun a ha => Nat.lt_of_lt_of_le (hl.lt a ha) hge) ⟨l, h, hr, rfl, ht, hkind⟩
     have hlast : (l.toks.toList ++ [t]).getLast? = some t := by simp
     have htoks1 : (lexToken l).1.toks.toList = l.toks.toList ++ [t] := by rw [ht]; simp
